@@ -146,7 +146,7 @@ def run(spec):
     return {'nontrivial': moving >= 2 and interesting, 'labels': labels}
 
 
-FAMILIES = [Family('economies', case, run, quick=320, thorough=12000)]
+FAMILIES = [Family('economies', case, run, quick=640, thorough=12000)]
 
 MANIFEST_INFO = {
     'level_text': 'Generated-program exploration: random model topologies are built through the public constructors, the '
